@@ -495,6 +495,7 @@ def preprocess_tree_sequences(
             result_sequence.append((result_matrix, label_sequence))
     else:
         result_sequence = []
+        token_dictionary = dict(token_dictionary)
         if masking in token_dictionary:
             del token_dictionary[masking]
 
@@ -669,6 +670,7 @@ def preprocess_token_sequences(
             )
     else:
         result_sequences = List()
+        token_dictionary = dict(token_dictionary)
         if masking in token_dictionary:
             del token_dictionary[masking]
 
@@ -849,6 +851,7 @@ def preprocess_timed_token_sequences(
             )
     else:
         result_sequences = List()
+        token_dictionary = dict(token_dictionary)
         if masking in token_dictionary:
             del token_dictionary[masking]
 
@@ -1035,6 +1038,7 @@ def preprocess_multi_token_sequences(
                 )
             full_sequence.append(result_sequences)
     else:
+        token_dictionary = dict(token_dictionary)
         if masking in token_dictionary:
             del token_dictionary[masking]
 
